@@ -1260,6 +1260,23 @@ pub fn c12(cx: &Ctx) -> Vec<Finding> {
             out.push(finding("C12", "C12:two-live-upstreams", format!("p{}.{} was subscribed while p{}.{} was still alive", w[1].pup, w[1].inst, a.pup, a.inst), w[1].created));
         }
     }
+    // "upstream is disposed exactly when the last attached sink detaches": at most once per upstream subscription,
+    // and never after that subscription has ended by itself (then nobody is attached any more)
+    for u in &insts {
+        if u.terms.len() > 1 {
+            out.push(finding("C12", "C12:upstream-disposed-twice", format!("p{}.{} received {} terminations", u.pup, u.inst, u.terms.len()), u.terms[1].0));
+        }
+        if let Some((e, m)) = &u.ended_at {
+            if let Some((t, _)) = u.terms.iter().find(|(t, _)| t > e) {
+                out.push(finding(
+                    "C12",
+                    "C12:upstream-disposed-after-own-end",
+                    format!("p{}.{} had ended by itself with {} and was disposed afterwards", u.pup, u.inst, m.short()),
+                    *t,
+                ));
+            }
+        }
+    }
     // every attached sink receives exactly what was emitted while it was attached
     for s in &cx.subs {
         let want: Vec<M> = expect.get(&(s.sink, s.sub)).map(|v| v.iter().map(|x| x.1.clone()).collect()).unwrap_or_default();
